@@ -51,7 +51,7 @@ class _LocalManager:
 class Observation:
     __slots__ = ("outcomes", "okeys", "final", "final_key", "deadlock", "hang", "locked", "mutex_owned",
                  "trace", "points", "yield_points", "events", "followup", "harness_errors", "reader_values",
-                 "observer_findings", "cond_stats", "observer_stats", "removal_findings")
+                 "observer_findings", "cond_stats", "observer_stats", "removal_findings", "line_points")
 
 
 def outcome_key(op, out):
@@ -175,7 +175,7 @@ class ScenarioRunner:
                 return False
         return True
 
-    def run(self, chooser, calls=None, with_followup=True):
+    def run(self, chooser, calls=None, with_followup=True, line_level=False):
         """Execute one schedule. calls: indices into scn.calls (default all)."""
         scn = self.scn
         idxs = list(range(len(scn.calls))) if calls is None else list(calls)
@@ -235,7 +235,13 @@ class ScenarioRunner:
                           observer=observer, pre_hook=self.removal_monitor)
         holder["s"] = sch
         probe.install()
-        sch.run()
+        if line_level:
+            S.LineYield.enable(sch)
+        try:
+            sch.run()
+        finally:
+            if line_level:
+                S.LineYield.disable()
         holder["s"] = None
         self.runs += 1
         ob = Observation()
@@ -244,6 +250,7 @@ class ScenarioRunner:
         ob.trace = list(sch.trace)
         ob.points = list(sch.points)
         ob.yield_points = sch.yield_points
+        ob.line_points = sch.line_points
         ob.events = sch.events
         ob.harness_errors = [repr(w.error) for w in sch.workers if w.error is not None]
         ob.outcomes = [w.result if isinstance(w.result, Outcome) else None for w in sch.workers]
@@ -428,11 +435,13 @@ def witness(runner, ob, symptom, detail):
             "detail": jsonable(detail), "events": [f"T{t}:{d}" for t, d in ob.events][:200]}
 
 
-def explore(runner, bound, budget=None, rng=None, n_random=0, pct=0, normalise=None):
+def explore(runner, bound, budget=None, rng=None, n_random=0, pct=0, normalise=None, n_line=0):
     """Preemption-bounded DFS (+ optional random walks / PCT). Yields (observation, problems)."""
     seen = set()
     stack = [[]]
     n = 0
+    if budget is None:
+        budget = 20000      # hard cap per scenario
     while stack:
         prefix = stack.pop()
         ob = runner.run(S.PrefixChooser(prefix))
@@ -457,3 +466,14 @@ def explore(runner, bound, budget=None, rng=None, n_random=0, pct=0, normalise=N
         new = key not in seen
         seen.add(key)
         yield ob, judge(runner, ob, normalise), new
+
+
+def explore_line_level(runner, rng, n, normalise=None):
+    """Random / PCT schedules with statement-level yield points (see sched.LineYield)."""
+    for i in range(n):
+        if i % 3 == 2:
+            ch = S.PCTChooser(rng, len(runner.scn.calls), 3, 1500)
+        else:
+            ch = S.RandomChooser(rng, rng.choice([0.01, 0.03, 0.08]))
+        ob = runner.run(ch, line_level=True)
+        yield ob, judge(runner, ob, normalise), True
